@@ -73,6 +73,36 @@ def lake_build(targets):
     return rc == 0, out + err
 
 
+def failed_modules_of(log, mods):
+    """which of `mods` cannot have been built: the modules lake names as failed, and everything that
+    imports one of them (read from the `import` lines; lake does not attempt those)"""
+    direct = set(re.findall(r"^- (CircBuf[\w.]*)\s*$", log, re.M)) | \
+        set(re.findall(r"✖ \[\d+/\d+\] Building (CircBuf[\w.]*)", log))
+    if not direct:
+        return None
+    cache = {}
+
+    def closure(m):
+        if m in cache:
+            return cache[m]
+        cache[m] = set()
+        path = os.path.join(LEAN, *m.split(".")) + ".lean"
+        out = set()
+        try:
+            for line in open(path):
+                mm = re.match(r"import (CircBuf[\w.]*)", line)
+                if mm:
+                    out.add(mm.group(1))
+                    out |= closure(mm.group(1))
+                elif line.strip() and not line.startswith("import"):
+                    break
+        except OSError:
+            pass
+        cache[m] = out
+        return out
+    return [m for m in mods if m in direct or closure(m) & direct]
+
+
 def failed_decls(log):
     """best-effort: names of files/lines that failed in a lake log"""
     return sorted(set(re.findall(r"error: (CircBuf/[\w/]+\.lean:\d+)", log)))
